@@ -246,4 +246,21 @@ def run(ctx, chk):
             det = "recursive call at %s: %s" % (unk[0][2].loc(), unk[0][4])
         chk.ob("C19.descent", "SCC {%s}: every cycle descends (%d edges)" % (name, len(r["edges"])), ok, where, fn=r["scc"][0],
                key="descent:" + name, detail=det)
+    # the operations on a decoded tree complete: they do not give up on account of its depth
+    chk.rule("C19.copy-total", "copying a decoded tree completes: cbor_copy (helpers included) returns NULL only where a callee that "
+                               "can fail has failed - never because of how deep the tree is (shared with C11.total)")
+    chk.rule("C19.serialize-total", "serializing a decoded tree completes: a serializer returns 0 only where a nested encoder/serializer "
+                                    "returned 0 or the buffer size was consulted (shared with C03/C07.total)")
+    if True:
+        import typestate
+        import ownership as O_
+        import encoder_rules as ER_
+        import serializer_rules as SR_
+        from props.c11 import check_total
+        H_, PA_, _IF, _x = ctx.typestate()
+        cache_ = O_.PathCache(prog, eff)
+        CS_ = typestate.CallSites(prog, eff, cache_, H_, PA_)
+        check_total(chk, "C19.copy-total", prog, eff, cache_, CS_)
+        nt_ = SR_.zero_only_on_short_buffer(chk, "C19.serialize-total", prog, eff, CS_, ER_.public_encoders(prog))
+        chk.floor("C19.serialize-total", "serializer paths", nt_, 60)
     chk.exhaustive = True
